@@ -272,6 +272,24 @@ def c04(run):
                     "rule": f"each definition (enumerated single-method traits, random traits, random groups incl. groups with built-in external traits) is expanded by /repo's generator in {nproc} fresh processes (fresh RandomState) under three different expanding crates; the ordered list (struct name, [(field name, field type)]) of every repr(C) struct must be identical (the path prefix naming the runtime crate normalised). Non-trivial = the expansion contains at least one repr(C) struct"})
 
 
+def c20(run):
+    import gen_c20
+    rounds = 1 if run.tier == "quick" else 10
+    for i in range(rounds):
+        seed = run.seed * 100 + i
+        if run.replay:
+            body = json.load(open(run.replay))
+            seed = (body.get("engine_params") or {}).get("seed", seed)
+        d = gen_c20.make(seed, 80)
+        ok, exe, errs, tail = _diag.build(d, PB_TARGET, timeout=3000)
+        if not ok:
+            raise Infra("the C20 pair crate does not build (layout_checks feature) against the current tree:\n" + json.dumps(errs)[:2000] + tail[-1500:])
+        res = run.run_harness(exe, timeout=600, label=f"c20pairs-{i}")
+        res["_params"] = {"seed": seed}
+        if run.replay:
+            break
+
+
 def c08(run):
     import gen_c08
     d = gen_c08.make(run.tier)
@@ -291,6 +309,7 @@ def c09(run):
 
 
 PROPS = {
+    "C20": c20,
     "C03": c03,
     "C04": c04,
     "C08": c08,
